@@ -29,8 +29,8 @@ class C12(Scenario):
     assumptions = ["only quantity functions fail (exception or wrong return type), as the statement says",
                    "fan-out collections only as the bins of a sparse container (profile new-bin-collection): a record that fails in a bin "
                    "that does not exist yet must leave nothing behind; once a failing record reaches an existing bin the stream is dropped"]
-    expected_faults = ["q_raise", "q_badtype", "q_missing_field"]
-    expected_probes = ["fault_in_nested_child", "fault_on_new_sparse_bin", "fault_not_reached", "fanout_new_bin", "fanout_existing_bin"]
+    expected_faults = ["q_raise", "q_badtype", "q_badnum", "q_badcomplex", "q_missing_field"]
+    expected_probes = ["fault_in_nested_child", "fault_on_new_sparse_bin", "fault_not_reached", "fanout_new_bin", "fanout_existing_bin", "stream_on_scaled_tree"]
 
     def _gen_collection(self, rng, tier):
         """a sparse container whose bins are collections: a record that fails in a later child of a *new* bin must leave
@@ -77,7 +77,16 @@ class C12(Scenario):
         f = rng.fork("faults")
         for _ in range(6):
             steps.append({"op": "stream", "faults": [], "missing": [[f.randrange(n), "y"] for _ in range(f.randint(2, 3))]})
-        return {"spec": sp, "records": [specmod.enc_record(r) for r in recs], "weights": ws, "steps": steps, "fanout": True}
+        return {"spec": sp, "records": [specmod.enc_record(r) for r in recs], "weights": ws, "steps": steps, "fanout": True,
+                "prelude": self._gen_prelude(rng, n)}
+
+    def _gen_prelude(self, rng, n):
+        """sometimes the stream does not start on a fresh tree but on one that was filled and scaled before (also until
+        its weights underflowed to 0.0): then only the rollback of every failing fill is checked, not the final content"""
+        p = rng.fork("prelude")
+        if not p.chance(0.2):
+            return None
+        return {"fills": [p.randrange(n) for _ in range(p.randint(1, 6))], "scales": p.pick([[2.0], [0.5], [1e-200, 1e-200], [1e-200, 1e-200], [5e-324, 0.5]])}
 
     def generate(self, rng, tier, profile):
         if profile == "new-bin-collection":
@@ -107,10 +116,12 @@ class C12(Scenario):
                     # the record at this position lacks one field: every quantity that reads it raises (KeyError for a
                     # function, NameError for a string expression)
                     steps.append({"op": "stream", "faults": [], "missing": [[pos, fld]]})
+        numeric = set(nd["id"] for nd in specmod.nodes(sp) if nd["f"] is not None and nd["p"] in
+                      ("Sum", "Average", "Deviate", "Minimize", "Maximize", "Bin", "SparselyBin", "CentrallyBin", "IrregularlyBin", "Stack", "Select", "Fraction"))
         if not long_:
             for pos in range(n):
                 for nd in nodes:
-                    for mode in ("raise", "badtype"):
+                    for mode in ("raise", "badtype") + (("badnum", "badcomplex") if nd in numeric else ()):
                         steps.append({"op": "stream", "faults": [[pos, nd, mode]]})
             for _ in range(min(6, n)):
                 k = f.randint(2, 3)
@@ -119,7 +130,7 @@ class C12(Scenario):
             for _ in range(60):
                 k = f.randint(1, 4)
                 steps.append({"op": "stream", "faults": [[f.randrange(n), f.pick(nodes), f.pick(["raise", "badtype"])] for _ in range(k)]})
-        return {"spec": sp, "records": [specmod.enc_record(r) for r in recs], "weights": ws, "steps": steps}
+        return {"spec": sp, "records": [specmod.enc_record(r) for r in recs], "weights": ws, "steps": steps, "prelude": self._gen_prelude(rng, n)}
 
     def run(self, case, w, R):
         sp = case["spec"]
@@ -133,6 +144,23 @@ class C12(Scenario):
             if not h.ok:
                 raise self.violation(exc_site(h.exc)[0], "construct", "exception:%s" % type(h.exc).__name__, h.describe(), si)
             h = h.value
+            pre = case.get("prelude")
+            if pre:
+                def prepared(x=h):
+                    for i in pre["fills"]:
+                        if i < len(w.records):
+                            x.fill(w.records[i], 1.0)
+                    for f_ in pre["scales"]:
+                        x = x * f_
+                    return x
+
+                o = call(prepared)
+                if o.ok and hasattr(o.value, "fill"):
+                    h = o.value
+                    w.bump("probe_stream_on_scaled_tree")
+                else:
+                    pre = None
+                    h = w.build(0).value
             faults = {}
             for pos, nd, mode in st["faults"]:
                 if pos < len(w.records) and nd in depth:
@@ -169,7 +197,7 @@ class C12(Scenario):
                         prim = specmod.nodes(sp)[nd]["p"]
                         raise self.violation(prim, "fill", "no-exception:%s" % mode,
                                              "fill returned normally although the quantity of node %d (%s) %s" % (
-                                                 nd, prim, "raised" if mode == "raise" else "returned a value of the wrong type"), si,
+                                                 nd, prim, "raised" if mode == "raise" else "returned a value of the wrong type (%s)" % mode), si,
                                              {"placement": st["faults"], "pos": pos})
                     if pos in missing:
                         # the fill went through: then no quantity on this record's path reads the missing field
@@ -214,7 +242,7 @@ class C12(Scenario):
                                          "fill of record %d raised (%s at node %d) but changed the tree at %s (%s.%s)" % (
                                              pos, mode, nd, d[0], d[1], d[2]), si,
                                          {"before": before, "after": after, "placement": st["faults"]})
-            if tainted:
+            if tainted or pre:
                 w.record_step(st, {0: observe.obs_hash(observe.observe(h))})
                 continue
             m = model.model_doc(sp, survivors)
